@@ -159,6 +159,8 @@ class Adapter(EnvAdapter):
             for tl in (2, 7, None):
                 out.append(_c(f"{nm}_t{'none' if tl is None else tl}", "layout", tl=tl, layout=lay, episodes=10,
                               max_steps=(tl or len(lay) * len(lay[0])) + 3, policies=ALL_POL))
+        # more than 127 cells
+        out.append(_c("r13x11_t40", "random", 13, 11, 40, episodes=6, max_steps=43, policies=ALL_POL, probe_every=3))
         out.append(_c("inj2x3_t2", "inject", 2, 3, 2, inject=("MC_Maze", "MC_Maze_quick.cfg"), max_steps=2, post_terminal=0,
                       policies=["random"], props=INJ_PROPS))
         out.append(_c("inj3x3_tnone", "inject", 3, 3, None, inject=("MC_Maze", "MC_Maze_thorough.cfg"), limit=4000, max_steps=1,
